@@ -220,6 +220,7 @@ where
                     U::bool(hint_ok),
                     U::L(caps[k..].to_vec()),
                     U::L(used[..k].to_vec()),
+                    U::L(caps[..k].to_vec()),
                 ]));
             }
         }
